@@ -277,7 +277,8 @@ def check_invariants(ctx, step, circ, m, what):
         elif n in outs:
             keys = ["Output"]
         else:
-            keys = list(op.labels) + [type(op).__name__, op.parse_q_reg_types()]
+            # the register-type key is derived here from the operation's register types, not asked from the operation
+            keys = list(op.labels) + [type(op).__name__, "-".join({"e": "Emitter", "p": "Photonic"}.get(t, "?") for t in op.q_registers_type)]
         for k in keys:
             want.setdefault(k, []).append(n)
     for k in set(want) | set(circ.node_dict):
